@@ -20,6 +20,7 @@ def parseOp (j : Json) : Except String (Option Op) := do
   | "stop" => pure (some .stop)
   | "recv" => pure (some .recv)
   | "state" => pure none
+  | "drained" => pure none
   | _ => throw s!"bad op {o}"
 
 def sortStrs (l : List String) : List String := (l.toArray.qsort (· < ·)).toList
